@@ -105,6 +105,10 @@ theorem exec_slots_of_attrOk (t : ThreadId) (a : AppId) (acc : Access) (h : Heap
     simp only [plan] at hu
     split at hu <;> simp at hu
   | errSet e k' x => exact absurd hok id
+  | tmplLoad =>
+    simp only [plan] at hu
+    simp at hu
+    subst hu; simp
 
 theorem exec_threadOwned (t : ThreadId) (a : AppId) (acc : Access) (h : Heap) (hok : acc.attrOk)
     (o : ThreadOwned h) : ThreadOwned (exec .perInstance t a acc h).1 := by
